@@ -59,6 +59,10 @@ Definition oracle (tbl : list (string * purl)) (s : string) : option purl :=
 
 Section Judge.
 Context (up : string -> option purl).
+(* which model: the repaired code (kinds 0, 1) or the code as it was (kinds 2, 3;
+   used once to validate the unrepaired model behind the `_refuted` theorems) *)
+Context (rl : sstate -> config -> option sstate).
+Context (estep : estate -> eop -> estate).
 
 (* static storage: running state (None after a panic / before OInit) and the last configuration *)
 Fixpoint diff_static (i : N) (st : option (sstate * config)) (tr : trace) : option N :=
@@ -69,7 +73,7 @@ Fixpoint diff_static (i : N) (st : option (sstate * config)) (tr : trace) : opti
       | OInit c, _ =>
           if out_eqb v VOk then diff_static (N.succ i) (Some (fresh up c, c)) r else Some i
       | OReload c, Some (s, _) =>
-          match reload up s c with
+          match rl s c with
           | Some s' => if out_eqb v VOk then diff_static (N.succ i) (Some (s', c)) r else Some i
           | None => if out_eqb v VPanic then diff_static (N.succ i) None r else Some i
           end
@@ -88,18 +92,61 @@ Fixpoint diff_etcd (i : N) (st : estate) (kv : list (N * option einfo)) (tr : tr
       match o with
       | OEvent e =>
           if out_eqb v VOk
-          then diff_etcd (N.succ i) (etcd_step up st e)
+          then diff_etcd (N.succ i) (estep st e)
                  (match e with EPut k x => kv_set k x kv | EDel k => kv_del k kv end) r
           else Some i
       | OProbe u =>
-          if out_eqb v (VAns (answer_of (lookup_etcd up st u)) (answer_of (lookup_etcd up (fresh_etcd up kv) u)))
+          if out_eqb v (VAns (answer_of (lookup_etcd up st u)) (answer_of (lookup_etcd up (fold_left estep (map (fun e => EPut (fst e) (snd e)) kv) einit) u)))
           then diff_etcd (N.succ i) st kv r else Some i
       | _ => Some i
       end
   end.
 End Judge.
 
-(* id, kind (0 static, 1 etcd), mode (0: compare with the model only; 1: also
+(* ---- the traces of the model itself (what the theorems are about) ------------------------
+   Any list of ops: an op that does not apply (a reload or probe before the
+   first OInit, an etcd event on the static storage and vice versa) is skipped. *)
+Section ModelTrace.
+Context (up : string -> option purl).
+
+Fixpoint mtrace_static (st : option (sstate * config)) (ops : list op) : trace :=
+  match ops with
+  | [] => []
+  | o :: r =>
+      match o, st with
+      | OInit c, _ => (o, VOk) :: mtrace_static (Some (fresh up c, c)) r
+      | OReload c, Some (s, _) =>
+          match reload up s c with
+          | Some s' => (o, VOk) :: mtrace_static (Some (s', c)) r
+          | None => [(o, VPanic)]
+          end
+      | OProbe u, Some (s, c) =>
+          (o, VAns (answer_of (lookup_static up s u)) (answer_of (lookup_static up (fresh up c) u)))
+            :: mtrace_static st r
+      | _, _ => mtrace_static st r
+      end
+  end.
+
+Fixpoint mtrace_etcd (st : estate) (kv : list (N * option einfo)) (ops : list op) : trace :=
+  match ops with
+  | [] => []
+  | o :: r =>
+      match o with
+      | OEvent e =>
+          (o, VOk) :: mtrace_etcd (etcd_step up st e)
+                        (match e with EPut k x => kv_set k x kv | EDel k => kv_del k kv end) r
+      | OProbe u =>
+          (o, VAns (answer_of (lookup_etcd up st u)) (answer_of (lookup_etcd up (fresh_etcd up kv) u)))
+            :: mtrace_etcd st kv r
+      | _ => mtrace_etcd st kv r
+      end
+  end.
+End ModelTrace.
+
+Definition op_config (o : op) : list config :=
+  match o with OInit c | OReload c => [c] | _ => [] end.
+
+(* id, kind (0 static, 1 etcd; 2, 3: the same against the unrepaired model), mode (0: compare with the model only; 1: also
    evaluate P_C13 on the implementation's trace), url table, trace *)
 Definition case := (N * N * N * list (string * purl) * trace)%type.
 Definition mkcase (id kind mode : N) (tbl : list (string * purl)) (tr : trace) : case :=
@@ -110,8 +157,10 @@ Definition mkcase (id kind mode : N) (tbl : list (string * purl)) (tr : trace) :
 Definition judge (c : case) : list (N * N * N) :=
   let '(id, kind, mode, tbl, tr) := c in
   (match (match kind with
-          | 0%N => diff_static (oracle tbl) 0 None tr
-          | _ => diff_etcd (oracle tbl) 0 (einit) [] tr
+          | 0%N => diff_static (oracle tbl) (reload (oracle tbl)) 0 None tr
+          | 1%N => diff_etcd (oracle tbl) (etcd_step (oracle tbl)) 0 einit [] tr
+          | 2%N => diff_static (oracle tbl) (reload_unrepaired (oracle tbl)) 0 None tr
+          | _ => diff_etcd (oracle tbl) (etcd_step_unrepaired (oracle tbl)) 0 einit [] tr
           end) with Some i => [(id, 1%N, i)] | None => [] end) ++
   (if (match mode with 0%N => true | _ => P_C13 tr end) then [] else [(id, 2%N, 0%N)]).
 
